@@ -22,7 +22,7 @@ tvars == <<vars, tid, l, sc, rw, pc, why>>
 D == Traces[tid].doc
 Ev(i) == Traces[tid].ev[i]
 HasEv(i) == i <= Len(Traces[tid].ev)
-AsTuple(t) == [i \in 1..NF |-> t[i]]
+AsTuple(t) == [i \in 1..Len(t) |-> t[i]]
 
 ResetsOK(i) == /\ HasEv(i) /\ HasEv(i + 1)
                /\ Ev(i).e = "reset" /\ Ev(i + 1).e = "reset"
